@@ -23,7 +23,7 @@ Definition case := (N * program * option (list id) * option (list id) * bool)%ty
 Definition witnesses : list program :=
   [single w_direct; single w_func; single w_multi_call; single w_multi_unit; single w_false_dep;
    single w_false_loop; w_pkg_order; single w_go_multi; single w_go_noinit; single w_plain;
-   single w_sorted; w_program; single w_cycle].
+   single w_sorted; w_program; single w_cycle; w_special].
 
 Fixpoint leqb {A} (e : A -> A -> bool) (a b : list A) : bool :=
   match a, b with
@@ -52,9 +52,20 @@ Definition pkg_eqb (a b : pkg) : bool :=
   leqb spec_eqb (pspecs a) (pspecs b)
   && leqb (fun f g => N.eqb (fname f) (fname g) && leqb ref_eqb (frefs f) (frefs g)) (pfuncs a) (pfuncs b).
 
+Definition sdecl_eqb (a b : sdecl) : bool :=
+  match sd_kind a, sd_kind b with
+  | DFunc, DFunc | DMethod, DMethod | DLit, DLit | DVar, DVar => true
+  | _, _ => false
+  end
+  && match sd_name a, sd_name b with
+     | NInit, NInit | NMain, NMain | NOther, NOther => true
+     | _, _ => false
+     end
+  && leqb N.eqb (sd_marks a) (sd_marks b).
+
 Definition package_eqb (a b : package) : bool :=
   N.eqb (pk_id a) (pk_id b) && leqb N.eqb (pk_imports a) (pk_imports b) && pkg_eqb (pk_body a) (pk_body b)
-  && leqb N.eqb (pk_inits a) (pk_inits b) && Bool.eqb (pk_main a) (pk_main b).
+  && leqb sdecl_eqb (pk_decls a) (pk_decls b) && Bool.eqb (pk_main a) (pk_main b).
 
 Definition program_eqb (a b : program) : bool :=
   leqb package_eqb (packages a) (packages b) && N.eqb (entry a) (entry b).
@@ -77,4 +88,5 @@ Definition c15_mis_g (cs : list case) : list N :=
 Definition IN := mkinit.
 Definition FN := mkfun.
 Definition PK := mkpk.
+Definition SD := mksd.
 Definition BD := mkpkg.
